@@ -376,6 +376,15 @@ func accounting(pre []int64, S *types.ValidatorSet, k int) string {
 	return "proposer-not-a-member"
 }
 
+func indexOf(S *types.ValidatorSet, addr string) int {
+	for i, v := range S.Validators {
+		if string(v.Address) == addr {
+			return i
+		}
+	}
+	return -1
+}
+
 func accums(S *types.ValidatorSet) []int64 {
 	out := make([]int64, len(S.Validators))
 	for i, v := range S.Validators {
@@ -721,12 +730,20 @@ func (s *state) splits() (ok, ran bool) {
 					key += "proposer-differs-priorities-equal"
 				}
 				pw := make([]int64, len(C.Validators))
+				refPower := int64(0)
+				refAcc := make([]string, len(r.vals))
 				for i, v := range C.Validators {
 					pw[i] = v.VotingPower
+					refAcc[i] = r.vals[i].accum.String()
+					if r.vals[i].addr == r.proposer() {
+						refPower = r.vals[i].power
+					}
 				}
 				if c.Violate("path-dependence", key,
-					"after %d rotations split as %v the proposer/priorities differ from %d single rotations: powers %v, proposer power %d vs reference proposer %s; priorities equal=%v",
-					pos+k, p, pos+k, pw, C.GetProposer().VotingPower, short(r.proposer()), accEq) {
+					"powers %v, priorities %v: %d rotations performed as IncrementAccum calls %v give proposer index %d (power %d) priorities %v; "+
+						"%d single rotations give proposer index %d (power %d) priorities %v",
+					pw, accums(s.S), pos+k, p, indexOf(C, string(C.GetProposer().Address)), C.GetProposer().VotingPower, accums(C),
+					pos+k, r.find(r.proposer()), refPower, refAcc) {
 					stop = true
 					return
 				}
